@@ -463,6 +463,8 @@ fn after_server_updates() -> Vec<Case> {
 
 fn long_histories() -> Vec<Case> {
     let mut v = Vec::new();
+    // more events than a 16-bit counter holds
+    v.push(Case { steps: (0..70_000u32).map(|k| if k % 2 == 0 { Step::Key { code: (k % 200) as u16, down: k % 4 == 0, lenient: k % 9 == 0 } } else { Step::Pointer { x: (k % 1000) as u16, y: (k % 700) as u16, button: (k % 4) as u8, down: k % 3 == 0, lenient: false } }).collect(), user_id: 1004, share_id: 0x000103EA, variant: 0 });
     for variant in 0..4u32 {
         let mut steps = Vec::new();
         for k in 0..3000u32 {
